@@ -68,6 +68,115 @@ def nullness_at_exit(g, attrs):
     return results
 
 
+class _Muted:
+    """stands in for the context while the site-level rules do not apply: obligations and floors are dropped"""
+
+    def __init__(self, ctx):
+        self._c = ctx
+
+    def ob(self, *a, **k):
+        return True
+
+    def floor(self, *a, **k):
+        return None
+
+    def __getattr__(self, n):
+        return getattr(self._c, n)
+
+
+def reset_by_interpretation(ctx, repo, rule="I6", rule_disconnect=None):
+    """async_reset on the manager model: from several states, with / without a facade and a spa (connected or not)"""
+    from ..absint import PyRaise
+    from ..managermodel import Manager
+    reset = repo.method(MAN, "async_reset")
+    m = Manager(repo).warm_up()
+    n = 0
+    for state in ("CONNECTED", "CONNECTING", "ERROR_NEEDS_ATTENTION", "ERROR_PING_MISSED", "IDLE", "LOCATED_SPAS"):
+        for fac in (True, False):
+            for spa, connected in ((True, True), (True, False), (False, False)):
+                if fac and not spa:
+                    continue
+                m.put(state, facade=fac, spa=spa, connected=connected)
+                try:
+                    m.reset()
+                    err = None
+                except PyRaise as e:
+                    err = e.what
+                post = {"state": m.state(), "facade": m.it.getattr(m.obj, "facade") is not None, "spa": m.obj.attrs.get("_spa") is not None,
+                        "descriptors": m.it.getattr(m.obj, "spa_descriptors") is not None}
+                key = f"async_reset::from={state}::facade={fac}::spa={'connected' if spa and connected else 'unconnected' if spa else 'none'}"
+                n += 1
+                ctx.ob(rule, f"{key}::lands-in-IDLE-with-nothing", err is None and post == {"state": "IDLE", "facade": False, "spa": False, "descriptors": False},
+                       f"async_reset from {state} (facade {'present' if fac else 'absent'}, spa {'connected' if spa and connected else 'present, handshake unfinished' if spa else 'absent'}) "
+                       f"{'raises ' + err if err else 'ends in ' + str(post)}: expected IDLE with no facade, spa or descriptors", reset.loc,
+                       sample={"rule": rule, "from": state, "post": post} if n % 7 == 1 else None)
+                r2 = rule_disconnect or rule
+                want_calls = (["facade.disconnect"] if fac else []) + (["spa.disconnect"] if spa else [])
+                got_calls = [x for x in m.log if x in ("facade.disconnect", "spa.disconnect")]
+                ctx.ob(r2, f"{key}::disconnects-what-exists", err is not None or got_calls == want_calls,
+                       f"async_reset from {state}: collaborators asked to disconnect {got_calls}, expected {want_calls} - whatever exists is disconnected (a spa whose handshake never finished still owns an endpoint and tasks)", reset.loc)
+                if fac and spa:
+                    ctx.ob("I4", f"{key}::facade-still-there-when-the-spa-disconnects", err is not None or ("facade-at-spa-disconnect", True) in m.log,
+                           f"async_reset from {state}: the facade reference is dropped before the spa's disconnect announces RUNNING_SPA_DISCONNECTED - a teardown raised by it would find no facade", reset.loc)
+    ctx.floor(rule, "reset valuations interpreted", n, 20)
+
+
+def lifecycle_by_interpretation(ctx, repo):
+    """I1-I4, I6, I7 on the interpreted relation: every state x facade presence x event"""
+    from ..absint import Opaque as _Op
+    from ..managermodel import lifecycle_relation
+    rel, states, events, m = lifecycle_relation(repo)
+    he = repo.method(MAN, "_handle_event")
+    ctx.floor("I9", "state x facade x event valuations interpreted", len(rel), 400)
+    texts = {}
+    for s_ in states:
+        try:
+            texts[s_] = m.text_of(s_)
+        except Exception:  # noqa: BLE001 - totality of to_string is decided separately
+            texts[s_] = None
+    n_ready = n_td = 0
+    for (s0, fac, ev), out in sorted(rel.items()):
+        if "raises" in out:
+            continue
+        calls = out["calls"]
+        final = out["final"]
+        key = f"{s0}::facade={fac}::{ev}"
+        # I1: CONNECTED / SPA_READY are entered only their own way
+        if final == "CONNECTED" and s0 != "CONNECTED":
+            ctx.ob("I1", f"rel::{key}::CONNECTED-only-by-FINISHED-with-facade", ev == "CONNECTION_FINISHED" and fac,
+                   f"from {s0} (facade {'present' if fac else 'absent'}) the event {ev} moves the manager to CONNECTED: only CONNECTION_FINISHED with a live facade may", he.loc)
+        if final == "SPA_READY" and s0 != "SPA_READY":
+            ctx.ob("I1", f"rel::{key}::SPA_READY-only-by-SPA_COMPLETE", ev == "CONNECTION_SPA_COMPLETE", f"from {s0} the event {ev} moves the manager to SPA_READY: only CONNECTION_SPA_COMPLETE may", he.loc)
+        # I2: ready announced exactly when CONNECTED is entered, with the state already CONNECTED and a facade
+        ready = [c for c in calls if c[0] == READY]
+        n_ready += len(ready)
+        entered = final == "CONNECTED" and s0 != "CONNECTED"
+        ctx.ob("I2", f"rel::{key}::ready-iff-entered", (len(ready) == 1) if entered else (len(ready) == 0 or (s0 == "CONNECTED" and ev == "CONNECTION_FINISHED")),
+               f"from {s0} (facade {'present' if fac else 'absent'}) on {ev}: {len(ready)} {READY} callback(s), CONNECTED {'entered' if entered else 'not entered'} (final {final})", he.loc)
+        for c in ready:
+            ctx.ob("I2", f"rel::{key}::ready-sees-CONNECTED-and-facade", c[1] == "CONNECTED" and c[2], f"{READY} delivered while the manager reads state {c[1]} / facade {'present' if c[2] else 'absent'}", he.loc)
+        # I3 / I4: teardown only out of CONNECTED, after the state has left it, at most once, with a facade
+        td = [c for c in calls if c[0] == TEARDOWN]
+        n_td += len(td)
+        ctx.ob("I3", f"rel::{key}::teardown-only-from-CONNECTED-once", len(td) == 0 or (s0 == "CONNECTED" and len(td) == 1),
+               f"from {s0} on {ev}: {len(td)} {TEARDOWN} callback(s) - a teardown belongs to leaving CONNECTED, once", he.loc)
+        for c in td:
+            ctx.ob("I3", f"rel::{key}::teardown-after-leaving-CONNECTED", c[1] != "CONNECTED", f"{TEARDOWN} delivered while the manager still reads CONNECTED (a concurrent event could announce a second one)", he.loc)
+            if fac:
+                ctx.ob("I4", f"rel::{key}::teardown-sees-facade", c[2], f"{TEARDOWN} delivered on {ev} from {s0} after the facade reference was dropped", he.loc)
+        # I7: at every client callback the status text is the text of the state the manager reads
+        for c in calls:
+            want = texts.get(c[1])
+            if isinstance(c[3], str) and isinstance(want, str):
+                ctx.ob("I7", f"rel::{key}::text-follows-state::{c[0]}", c[3] == want,
+                       f"client callback {c[0]} (fired by {ev} from {s0}): status sensor shows {c[3]!r} while the manager is in {c[1]} ({want!r})", he.loc)
+    ctx.ob("I2", "rel::ready-is-announced-somewhere", n_ready >= 1, f"no valuation delivers {READY}", he.loc)
+    ctx.ob("I3", "rel::teardown-is-announced-somewhere", n_td >= 3, f"only {n_td} valuations deliver {TEARDOWN}", he.loc)
+    ctx.extra["lifecycle_relation_by_interpretation"] = sorted(f"{s0}{'+facade' if fac else ''} --{ev}--> {out.get('final')}" for (s0, fac, ev), out in rel.items()
+                                                                if out.get("final") != s0 and "raises" not in out)[:80]
+    reset_by_interpretation(ctx, repo, "I6")
+
+
 def check(ctx):
     repo = Repo()
     cg = callgraph(repo)
@@ -94,16 +203,22 @@ def check(ctx):
 
     state_rows = [r for r in rows if r.kind == "state"]
     raise_rows = [r for r in rows if r.kind == "raise"]
-    ctx.floor("I9", "state-assignment rows in _handle_event", len(state_rows), 10)
-    ctx.floor("I9", "nested event raises in _handle_event", len(raise_rows), 6)
+    # the lifecycle by interpretation (vlib/managermodel.py) carries the verdict; the rules that read the switch as a ladder
+    # of `event == X` tests with state assignments underneath apply only while it has that shape
+    lifecycle_by_interpretation(ctx, repo)
+    healthy = len(state_rows) >= 10 and len(raise_rows) >= 6
+    ctx.count("I9:switch-read-as-ladder", int(healthy))
+    if not healthy:
+        ctx.note(f"_handle_event is not an `event == X` ladder with state assignments ({len(state_rows)} state rows, {len(raise_rows)} nested raises extracted): the site-level rules I1/I2/I3/I7/I8/I9 are skipped, the interpreted relation decides")
+    sctx = ctx if healthy else _Muted(ctx)
     ctx.extra["lifecycle_relation"] = [r.describe() for r in rows]
     events = set(enum_members(repo, "GeckoSpaEvent"))
     states = set(enum_members(repo, "GeckoSpaState"))
     for r in rows:
         for e in r.events:
-            ctx.ob("I9", f"event::{e}", e in events, f"_handle_event tests unknown event {e}", loc(he, r.node.ast))
+            sctx.ob("I9", f"event::{e}", e in events, f"_handle_event tests unknown event {e}", loc(he, r.node.ast))
         if r.kind == "state":
-            ctx.ob("I9", f"state::{r.value}::L{sorted(r.events)}", r.value in states, f"_handle_event assigns unknown state {r.value}", loc(he, r.node.ast))
+            sctx.ob("I9", f"state::{r.value}::L{sorted(r.events)}", r.value in states, f"_handle_event assigns unknown state {r.value}", loc(he, r.node.ast))
 
     # ---- all state assignments in the manager class ---------------------------------
     man = repo.cls(MAN)
@@ -117,12 +232,12 @@ def check(ctx):
                 all_state.append(r)
     # I1
     conn = [r for r in all_state if r.value == "CONNECTED"]
-    ctx.ob("I1", "CONNECTED::single-site", len(conn) == 1, f"CONNECTED is assigned at {len(conn)} sites: {[(r.fi.qual, r.node.lineno) for r in conn]}", he.loc,
+    sctx.ob("I1", "CONNECTED::single-site", len(conn) == 1, f"CONNECTED is assigned at {len(conn)} sites: {[(r.fi.qual, r.node.lineno) for r in conn]}", he.loc,
            sample={"rule": "I1", "sites": [r.describe() for r in conn]})
     for r in conn:
-        ctx.ob("I1", "CONNECTED::in-finished-row", r.fi is he and r.events == {"CONNECTION_FINISHED"},
+        sctx.ob("I1", "CONNECTED::in-finished-row", r.fi is he and r.events == {"CONNECTION_FINISHED"},
                f"CONNECTED assigned on events {sorted(r.events)} in {r.fi.qual} (must be the CONNECTION_FINISHED row)", loc(r.fi, r.node.ast))
-        ctx.ob("I1", "CONNECTED::only-with-facade", ("self._facade is None", False) in r.facts,
+        sctx.ob("I1", "CONNECTED::only-with-facade", ("self._facade is None", False) in r.facts,
                f"CONNECTED assigned without `_facade is not None` holding (L{r.node.lineno}); guards {sorted(r.facts)}", loc(r.fi, r.node.ast))
     # facade built only under SPA_READY
     fac_sites = []
@@ -132,56 +247,56 @@ def check(ctx):
             if assigns_attr(n, "self._facade") and isinstance(n.ast, ast.Assign) and not (isinstance(n.ast.value, ast.Constant) and n.ast.value.value is None):
                 if m.name != "__init__":
                     fac_sites.append((m, gm, n))
-    ctx.ob("I1", "facade::single-construction-site", len(fac_sites) == 1, f"facade assigned non-None at {len(fac_sites)} sites", man.loc)
+    sctx.ob("I1", "facade::single-construction-site", len(fac_sites) == 1, f"facade assigned non-None at {len(fac_sites)} sites", man.loc)
     for m, gm, n in fac_sites:
         facts = gm.guard_atoms(n)
         from ..fsm import state_guards
         req, _ = state_guards(facts)
-        ctx.ob("I1", "facade::only-when-SPA_READY", req == {"SPA_READY"}, f"{m.qual}: facade constructed under state guard {sorted(req)}, expected SPA_READY", loc(m, n.ast))
-        ctx.ob("I1", "facade::is-a-facade", isinstance(n.ast.value, ast.Call) and call_name(n.ast.value) == "GeckoAsyncFacade" and ast.unparse(n.ast.value.args[0]) == "self._spa",
+        sctx.ob("I1", "facade::only-when-SPA_READY", req == {"SPA_READY"}, f"{m.qual}: facade constructed under state guard {sorted(req)}, expected SPA_READY", loc(m, n.ast))
+        sctx.ob("I1", "facade::is-a-facade", isinstance(n.ast.value, ast.Call) and call_name(n.ast.value) == "GeckoAsyncFacade" and ast.unparse(n.ast.value.args[0]) == "self._spa",
                f"{m.qual}: `{ast.unparse(n.ast)}` does not build GeckoAsyncFacade(self._spa, ...)", loc(m, n.ast))
         # connect awaited before the state test
         con = [x for x, c in calls_named(gm, "connect") if receiver(c) == "self._spa"]
-        ctx.ob("I1", "facade::after-connect", any(gm.dom(c, n) for c in con), f"{m.qual}: facade built without awaiting spa.connect() first", loc(m, n.ast))
+        sctx.ob("I1", "facade::after-connect", any(gm.dom(c, n) for c in con), f"{m.qual}: facade built without awaiting spa.connect() first", loc(m, n.ast))
     ready = [r for r in all_state if r.value == "SPA_READY"]
-    ctx.ob("I1", "SPA_READY::single-site", len(ready) == 1 and ready[0].events == {"CONNECTION_SPA_COMPLETE"},
+    sctx.ob("I1", "SPA_READY::single-site", len(ready) == 1 and ready[0].events == {"CONNECTION_SPA_COMPLETE"},
            f"SPA_READY assigned at {[(r.fi.qual, sorted(r.events)) for r in ready]}", he.loc)
     sites = all_raise_sites(repo)
     comp = [(fi, c) for fi, c, ev in sites if ev == "CONNECTION_SPA_COMPLETE"]
-    ctx.ob("I1", "SPA_COMPLETE::single-raise-site", len(comp) == 1, f"CONNECTION_SPA_COMPLETE raised at {[f.qual for f, _ in comp]}")
+    sctx.ob("I1", "SPA_COMPLETE::single-raise-site", len(comp) == 1, f"CONNECTION_SPA_COMPLETE raised at {[f.qual for f, _ in comp]}")
     for fi, c in comp:
         gf = cfg_of(fi)
         cn = [n for n in gf.stmt_nodes() if c in list(n.walk())][0]
         flag = [n for n in gf.stmt_nodes() if isinstance(n.ast, ast.Assign) and ast.unparse(n.ast.targets[0]) == "self._is_connected" and repo.try_fold(n.ast.value) is True]
-        ctx.ob("I1", "SPA_COMPLETE::after-connected-flag", any(gf.dom(f, cn) for f in flag), f"{fi.qual}: CONNECTION_SPA_COMPLETE raised before the spa is marked connected", loc(fi, c))
+        sctx.ob("I1", "SPA_COMPLETE::after-connected-flag", any(gf.dom(f, cn) for f in flag), f"{fi.qual}: CONNECTION_SPA_COMPLETE raised before the spa is marked connected", loc(fi, c))
         ba = [n for n, c2 in calls_named(gf, "build_accessors")]
-        ctx.ob("I1", "SPA_COMPLETE::after-accessors", any(gf.dom(b, cn) for b in ba), f"{fi.qual}: CONNECTION_SPA_COMPLETE raised before the accessors are built", loc(fi, c))
+        sctx.ob("I1", "SPA_COMPLETE::after-accessors", any(gf.dom(b, cn) for b in ba), f"{fi.qual}: CONNECTION_SPA_COMPLETE raised before the accessors are built", loc(fi, c))
         sg = [n for n in gf.stmt_nodes() if n.kind == "test" and n.suspends and "struct.get" in n.text()]
         ok = bool(sg) and all(gf.dom(s, cn) for s in sg) and any(("await self.struct.get" in t or "self.struct.get" in t) and p for t, p in gf.guard_atoms(cn)) or \
             any("struct.get" in t and not p for t, p in gf.guard_atoms(cn))
-        ctx.ob("I1", "SPA_COMPLETE::after-initial-block", bool(sg) and all(gf.dom(s, cn) for s in sg), f"{fi.qual}: CONNECTION_SPA_COMPLETE not dominated by the initial status-block transfer", loc(fi, c))
+        sctx.ob("I1", "SPA_COMPLETE::after-initial-block", bool(sg) and all(gf.dom(s, cn) for s in sg), f"{fi.qual}: CONNECTION_SPA_COMPLETE not dominated by the initial status-block transfer", loc(fi, c))
 
     # I2
     rdy = [(fi, c) for fi, c, ev in sites if ev == READY]
-    ctx.ob("I2", "READY::single-raise-site", len(rdy) == 1 and rdy[0][0] is he, f"{READY} raised at {[f.qual for f, _ in rdy]}")
+    sctx.ob("I2", "READY::single-raise-site", len(rdy) == 1 and rdy[0][0] is he, f"{READY} raised at {[f.qual for f, _ in rdy]}")
     for r in raise_rows:
         if r.value == READY:
             ok = any(g.dom(c.node, r.node) for c in conn if c.fi is he)
-            ctx.ob("I2", "READY::after-CONNECTED-assignment", ok, f"{READY} raised (L{r.node.lineno}) not dominated by the CONNECTED assignment", loc(he, r.node.ast))
+            sctx.ob("I2", "READY::after-CONNECTED-assignment", ok, f"{READY} raised (L{r.node.lineno}) not dominated by the CONNECTED assignment", loc(he, r.node.ast))
     # I3 + I8
     td_sites = [(fi, c) for fi, c, ev in sites if ev == TEARDOWN]
-    ctx.floor("I3", "teardown raise sites", len(td_sites), 3)
+    sctx.floor("I3", "teardown raise sites", len(td_sites), 3)
     for fi, c in td_sites:
-        ctx.ob("I3", f"TEARDOWN::{fi.qual}::only-from-switch", fi is he, f"{TEARDOWN} raised outside the event switch in {fi.qual}", loc(fi, c))
+        sctx.ob("I3", f"TEARDOWN::{fi.qual}::only-from-switch", fi is he, f"{TEARDOWN} raised outside the event switch in {fi.qual}", loc(fi, c))
     for r in raise_rows:
         if r.value != TEARDOWN:
             continue
         key = f"TEARDOWN::{'+'.join(sorted(r.events))}"
-        ctx.ob("I3", f"{key}::guarded-by-CONNECTED", r.req_states == {"CONNECTED"},
+        sctx.ob("I3", f"{key}::guarded-by-CONNECTED", r.req_states == {"CONNECTED"},
                f"{TEARDOWN} on {sorted(r.events)} (L{r.node.lineno}) is not guarded by state == CONNECTED (guard {sorted(r.req_states)}): a teardown can be announced without a preceding ready / twice",
                loc(he, r.node.ast), sample={"rule": "I3", "row": r.describe()})
         moves = [s for s in state_rows if s.value != "CONNECTED" and g.dom(s.node, r.node) and s.events == r.events]
-        ctx.ob("I3", f"{key}::state-left-first", bool(moves), f"{TEARDOWN} on {sorted(r.events)} raised before the state leaves CONNECTED: a concurrent event could raise a second teardown", loc(he, r.node.ast))
+        sctx.ob("I3", f"{key}::state-left-first", bool(moves), f"{TEARDOWN} on {sorted(r.events)} raised before the state leaves CONNECTED: a concurrent event could raise a second teardown", loc(he, r.node.ast))
     for s in state_rows:
         if not s.req_states:
             continue
@@ -189,7 +304,7 @@ def check(ctx):
         for t in tests:
             mid = g.between(t, s.node)
             susp = [m for m in mid | {t} if m.suspends]
-            ctx.ob("I8", f"row::{'+'.join(sorted(s.events))}->{s.value}::atomic", not susp,
+            sctx.ob("I8", f"row::{'+'.join(sorted(s.events))}->{s.value}::atomic", not susp,
                    f"suspension between the state test (L{t.lineno}) and the assignment of {s.value} (L{s.node.lineno})", loc(he, s.node.ast))
 
     # I4 facade exists at teardown
@@ -261,19 +376,8 @@ def check(ctx):
             ctx.ob("I5", f"{fi.qual}::{finished}::only-in-finally", in_fin, f"{fi.qual}: {finished} raised outside a finally block", loc(fi, c))
         ctx.ob("I5", f"{finished}::single-site", len(f_sites) == len(s_sites) == 1, f"{started}/{finished} raised at {len(s_sites)}/{len(f_sites)} sites")
 
-    # I6 reset
+    # I6 reset: post-condition decided on the manager model (reset_by_interpretation, called from lifecycle_by_interpretation)
     reset = repo.method(MAN, "async_reset")
-    gr = cfg_of(reset)
-    res = nullness_at_exit(gr, ["_spa_descriptors", "_facade", "_spa"])
-    for a, vals in res.items():
-        ctx.ob("I6", f"async_reset::{a}-None-at-exit", vals == {"N"}, f"async_reset can return with self.{a} in state {sorted(vals)} (N=None, X=set, ?=untouched)", reset.loc)
-    st = [n for n in gr.stmt_nodes() if isinstance(n.ast, ast.Assign) and ast.unparse(n.ast.targets[0]) == STATE_ATTR]
-    last_ok = bool(st)
-    for n in st:
-        others = [m for m in st if m is not n and m in gr.reach_from(n, labels_skip=("exc",))]
-        if not others:
-            last_ok = last_ok and ast.unparse(n.ast.value).endswith(".IDLE") and gr.pdom(n, gr.entry)
-    ctx.ob("I6", "async_reset::lands-in-IDLE", last_ok, "async_reset does not end with the state IDLE on every normal path", reset.loc)
     # a reset always lands in IDLE - also when it runs inside the ping-loop task that
     # spa.disconnect() cancels (shared rule, see C10.R7)
     from .c10 import reset_survives_self_cancel
@@ -286,17 +390,17 @@ def check(ctx):
     # I7 status sensor
     oe = [(n, c) for n, c in calls_named(g, "on_event") if (receiver(c) or "").endswith("_status_sensor")]
     cb = [(n, c) for n, c in calls_named(g, "handle_event") if receiver(c) == "self"]
-    ctx.ob("I7", "sensor::single-update-site", len(oe) == 1 and len(cb) == 1, f"{len(oe)} sensor updates / {len(cb)} client callbacks in _handle_event", he.loc)
+    sctx.ob("I7", "sensor::single-update-site", len(oe) == 1 and len(cb) == 1, f"{len(oe)} sensor updates / {len(cb)} client callbacks in _handle_event", he.loc)
     if len(oe) == 1 and len(cb) == 1:
         O, C = oe[0][0], cb[0][0]
         late = [s for s in state_rows if O not in g.reach_from(s.node, labels_skip=("exc",))]
-        ctx.ob("I7", "sensor::after-the-switch", not late, f"state assignments at lines {[s.node.lineno for s in late]} happen after the sensor update: the status text lags the state", he.loc)
-        ctx.ob("I7", "sensor::before-client-callback", C in g.reach_from(O, labels_skip=("exc",)) and O not in g.reach_from(C, labels_skip=("exc",)),
+        sctx.ob("I7", "sensor::after-the-switch", not late, f"state assignments at lines {[s.node.lineno for s in late]} happen after the sensor update: the status text lags the state", he.loc)
+        sctx.ob("I7", "sensor::before-client-callback", C in g.reach_from(O, labels_skip=("exc",)) and O not in g.reach_from(C, labels_skip=("exc",)),
                "the client callback runs before the status sensor is updated", he.loc)
         # the only guard of the update is the existence of the sensor
         gsO = [(n.text(), l) for n, l in g.guards(O) if "_status_sensor" not in n.text()]
-        ctx.ob("I7", "sensor::updated-for-every-event", not gsO, f"sensor update is conditional on {gsO}", he.loc)
-        ctx.ob("I7", "sensor::gets-the-event", [ast.unparse(a) for a in oe[0][1].args] == ["event"], "on_event is not given the event", he.loc)
+        sctx.ob("I7", "sensor::updated-for-every-event", not gsO, f"sensor update is conditional on {gsO}", he.loc)
+        sctx.ob("I7", "sensor::gets-the-event", [ast.unparse(a) for a in oe[0][1].args] == ["event"], "on_event is not given the event", he.loc)
     ss = repo.cls("StatusSensor") if repo.classes().get("StatusSensor") else None
     onev = repo.method("StatusSensor", "on_event")
     body = [ast.unparse(s) for s in onev.node.body]
